@@ -83,7 +83,7 @@ DDerives == /\ IsEvent("dderives")
             /\ LET e == Rec[l]
                    n == Len(E.variants)
                    \* a variant-level #[strum_discriminants(strum(serialize = ".."))] is passed through and names the variant
-                   want == [i \in 1..n |-> IF E.variants[i].dser # <<>> THEN E.variants[i].dser[1]
+                   want == [i \in 1..n |-> IF E.variants[i].dser # <<>> THEN E.variants[i].dser[Len(E.variants[i].dser)]    \* the last = the longest literal
                                                                        ELSE Convert(E.dstyle, E.variants[i].id)] IN
                Require(e.def = E.id /\ e.iter = [i \in 1..n |-> i] /\ e.names = want /\ e.parsed = [i \in 1..n |-> i] /\ e.count = n,
                        l, "derives requested through strum_discriminants",
